@@ -140,9 +140,13 @@ claim('C20', 'other',
       "Decides named structural clauses: get/set/clear agree on unit = i div 8, mask = 1 << (i mod 8) and apply the right "
       "operator; the representation invariant 'bits >= CAPACITY are zero' is established by the constructor/clear() and "
       "preserved by every mutator (each storage write classified); whole-array operations cover the full extent; array "
-      "accessor / iteration / emplace shapes. Equivalence with the mathematical model over all operation sequences is NOT decided.",
-      "Unrecognised shapes are reported as analysis-broken (exit 2), not as violations.",
-      "sibling agreement of normalised expression trees + invariant classification + loop-extent rules",
+      "accessor / iteration / emplace shapes. C20.e: for every capacity 1..255 and every index below it, bit-provenance abstract "
+      "interpretation of set(i)/clear(i)/get(i)/set()/clear()/&= shows each operation refines the set-of-integers model bit by bit "
+      "and keeps the padding zero -- with the invariant, a simulation argument over every operation sequence. Element values of "
+      "the fixed/growable arrays over sequences are NOT decided (accessor/iteration shapes only).",
+      "A shape that is not recognised is analysis-broken (exit 2) unless the semantic rule C20.e decides that operation, in which case "
+      "the shape rule steps aside.",
+      "bit-provenance abstract interpretation (exhaustive over capacity x index) + invariant classification + loop-extent rules + sibling agreement",
       "DESIGN.md section 4 C20")
 
 claim('C08', 'other',
@@ -186,10 +190,13 @@ claim('C13', 'other',
       "bitWidth decided for all 2^32 arguments by evaluating the extracted expression on the end points of its own 33 threshold "
       "regions (after checking the argument is used in threshold tests only); cursor/width lock-step rule (cursor advances by "
       "exactly N, contiguous fields); writer/reader agreement on byte index, chunk start, chunk width, LSB-first, OR into a cleared "
-      "buffer; type-level: the width derived for every state count 1..255 suffices. The value-level round trip and write locality "
-      "are NOT decided.",
-      "Residue: integer arithmetic over shifts/truncations (no usable sound tool here).",
-      "threshold-partition evaluation + structural rules on normalised expression trees + static_assert obligations",
+      "buffer; type-level: the width derived for every state count 1..255 suffices. C13.d: bit-provenance abstract interpretation "
+      "of write<N>/read<N> for every width 1..32 and every start cursor of the 255-bit stream decides the value-level clauses for "
+      "all values (own field placed LSB-first at [cursor, cursor+N), nothing else altered, bits past the cursor zero, read returns "
+      "exactly the field, cursor += N), which composes to the round trip over every field sequence.",
+      "The kernels are analysed at capacity 255; they mention the capacity in an assertion only. Where C13.d decides, the shape rules "
+      "C13.b/c are diagnostics and step aside for loops spelled differently.",
+      "threshold-partition evaluation + bit-provenance abstract interpretation (exhaustive over width x cursor) + structural rules + static_assert obligations",
       "DESIGN.md section 4 C13")
 
 claim('C16', 'other',
